@@ -524,7 +524,7 @@ def build_file(rng, chans, nseg=1, nchunks=(1,), endian='<', inter=False, root_p
         index[qpath(g, name)] = (t, n, (4 * n + 3 * n) if t == 'str' else None)
     for si in range(nseg):
         s = Seg()
-        s.endian = endian if isinstance(endian, str) else endian[si % len(endian)]
+        s.endian = endian[si % len(endian)]
         s.interleaved = bool(inter)
         mode = 'full' if si == 0 else (continuation if continuation != 'mixed' else rng.choice(['same', 'none', 'full']))
         if mode == 'none':
